@@ -233,6 +233,18 @@ def command_methods(run, pc):
                                 kk = unwrap(P.const_eval(k, im.module, cls=pc))
                             except (Unknown, AnalysisError):
                                 raise AnalysisError(f"{im.qualname}: mapping key `{norm(k)}` not a constant")
+                            if isinstance(vv, ast.Subscript) and isinstance(vv.value, ast.Attribute) and norm(vv.value.value) == "self" and vv.value.attr in state \
+                                    and state[vv.value.attr][0] not in ("view", "copy"):
+                                # an entry taken over from the table built so far (self._mappings[K] of the parent's table)
+                                try:
+                                    sk = unwrap(P.const_eval(vv.slice, im.module, cls=pc))
+                                except (Unknown, AnalysisError):
+                                    raise AnalysisError(f"{im.qualname}: mapping value `{norm(vv)}` not understood")
+                                base_ = state[vv.value.attr][1]
+                                if sk not in base_:
+                                    raise AnalysisError(f"{im.qualname}: `{norm(vv)}` names a command the table built so far does not have")
+                                d[kk] = base_[sk]
+                                continue
                             d[kk] = entry_value(vv, im)
                         state[t.attr] = new_obj(d)
                         continue
